@@ -29,6 +29,7 @@ type schedState struct {
 	explore     bool
 	preemptLeft int
 	autoFires   int
+	lastSwitch  int64
 	choices     []int
 }
 
@@ -186,6 +187,7 @@ func (ex *Exec) switchTo(g, next *goroutine) {
 	}
 	ex.cur = next
 	next.parked = false
+	ex.sched.lastSwitch = ex.steps
 	next.wake <- struct{}{}
 	<-g.wake
 	if g.killed {
@@ -212,6 +214,22 @@ func (ex *Exec) block(cond func() bool, desc string) {
 
 // schedPoint is a potential pre-emption point.
 func (ex *Exec) schedPoint(what string) {
+	// fairness: a goroutine that keeps running without blocking (busy-wait
+	// loop) must not starve the others under cooperative scheduling
+	if ex.steps-ex.sched.lastSwitch > 300000 && len(ex.gs) > 1 {
+		g := ex.cur
+		for i := 1; i <= len(ex.gs); i++ {
+			o := ex.gs[(g.id+i)%len(ex.gs)]
+			if o != g && o.runnable() {
+				ex.sched.lastSwitch = ex.steps
+				g.parked = true
+				ex.switchTo(g, o)
+				g.parked = false
+				break
+			}
+		}
+		ex.sched.lastSwitch = ex.steps
+	}
 	if !ex.sched.explore || ex.sched.preemptLeft <= 0 {
 		return
 	}
@@ -263,6 +281,18 @@ func (ex *Exec) yield() {
 func (ex *Exec) choose(n int, what string) int {
 	if n <= 1 {
 		return 0
+	}
+	if rp := ex.sh.cfg.Replay; rp != nil {
+		c := 0
+		if ex.replayPos < len(rp.Choices) {
+			c = rp.Choices[ex.replayPos]
+		}
+		ex.replayPos++
+		if c >= n {
+			c = 0
+		}
+		ex.sched.choices = append(ex.sched.choices, c)
+		return c
 	}
 	if d, ok := ex.following(); ok {
 		if d.Kind != 'c' {
